@@ -1,6 +1,7 @@
 -------------------------- MODULE Trace_FrontEnds --------------------------
 (* C2S judge for C16: [id, fcmds, dcmds (command paths as word sequences), fdiff, ddiff (entries op,row,kids), ferr, derr (the front end raised),
-   wlines, dlines (patch text printed by file_patch_worker for the two files / device-mode patch text, as word sequences; both <<>> when not driven)] *)
+   wlines, dlines (patch text printed by file_patch_worker for the two files / device-mode patch text, as word sequences; both <<>> when not driven),
+   fview, dview (the diff as printed from the grouped diff each front end hands back)] *)
 EXTENDS FrontEnds, TLC, Json, IOUtils
 Recs == ndJsonDeserialize(IOEnv.TRACE_FILE)
 VARIABLE i
@@ -9,6 +10,7 @@ Verdict(r) ==
   ELSE IF r.ferr THEN <<"ok", 0>>
   ELSE IF r.fcmds # r.dcmds THEN <<"patch-differs", FirstDiff(r.fcmds, r.dcmds)>>
   ELSE IF r.fdiff # r.ddiff THEN <<"diff-differs", FirstDiff(r.fdiff, r.ddiff)>>
+  ELSE IF r.fview # r.dview THEN <<"printed-file-diff-differs-from-device-mode", FirstDiff(r.fview, r.dview)>>
   ELSE IF ~WorkerAgrees(r.wlines, r.dlines) THEN <<"file-worker-output-differs-from-device-mode", FirstDiff(r.wlines, r.dlines)>>
   ELSE <<"ok", 0>>
 Init == i = 0
